@@ -621,6 +621,15 @@ class BuiltinMixin:
                 x = z3.Const(fresh_name("sx"), sort_of(a.ety))
                 return SSet(a.ety, z3.Lambda([x], z3.Or(a.chi[x], b.chi[x])))
             raise Unsupported(f"set.{name}")
+        if name == "append" and args and isinstance(args[0], SOpt):
+            # an optional value appended where the path condition excludes None (e.g. after an isinstance test): append the value itself
+            chk_ = z3.Solver()
+            chk_.set("timeout", 2000)
+            chk_.add(*st.pc)
+            chk_.add(args[0].isnone)
+            if chk_.check() != z3.unsat:
+                raise Unsupported("append of an optional value that may be None")
+            args = [args[0].val] + list(args[1:])
         if isinstance(recv, list) and all(not isinstance(a, Sym) or True for a in args):
             if name == "append":
                 return recv + [args[0]]
@@ -768,6 +777,18 @@ class BuiltinMixin:
     def call_external(self, q, args, kwargs, st, node):
         if q in ("logging.warning", "logging.debug", "logging.info", "logging.error"):
             st.log = st.log + ((q.split(".")[1], args[0] if args else None),)
+            if q == "logging.warning" and args and "Log" in C.SCHEMAS:
+                # ghost heap: the set of texts mentioned by some warning grows by everything the message text contains
+                from . import spec as S_
+                msg = args[0]
+                texts = [p_ for p_ in (msg.parts if isinstance(msg, Opaque) else [msg]) if isinstance(p_, str) or (isinstance(p_, SV) and p_.ty is TStr)]
+                if texts:
+                    lobj = S_.log_object()
+                    arr = self.heap_array(st, "Log.warned")
+                    s_ = z3.String(fresh_name("ls"))
+                    new = z3.Lambda([s_], z3.Or(z3.Select(z3.Select(arr, lobj.t), s_), *[z3.Contains(to_term(p_), s_) for p_ in texts]))
+                    self.check_frame(st, "Log.warned")
+                    st.heap["Log.warned"] = z3.Store(arr, lobj.t, new)
             return None
         h = getattr(self, "ext_" + q.replace(".", "_"), None)
         if h is not None:
